@@ -680,4 +680,314 @@ theorem visD_on_eq_off_of_not_fires (exro : Bool) :
                 exact ih (fun y hy => hps y (by simp [hy])) _ this
         rw [this props hp kvs hfp]
 
+/-! ### T3: composition-free schemas with harmless defaults — same verdict with and without `DefaultsSet` -/
+
+theorem lookup_append_single (k k0 : Str) (d : V) (l : List (Str × V)) :
+    lookup k (l ++ [(k0, d)]) = match lookup k l with | some x => some x | none => if k = k0 then some d else none := by
+  induction l with
+  | nil => simp [lookup]
+  | cons e r ih =>
+    obtain ⟨k', v'⟩ := e
+    simp only [List.cons_append]
+    unfold lookup
+    by_cases hk : k = k'
+    · simp [hk]
+    · simp only [hk, if_false]; exact ih
+
+theorem lookup_cons {α : Type} (k k0 : Str) (v0 : α) (r : List (Str × α)) :
+    lookup k ((k0, v0) :: r) = if k = k0 then some v0 else lookup k r := rfl
+
+theorem lookup_inject (exro : Bool) (props : List (Str × RS)) (hn : (keys props).Nodup) (k : Str) :
+    ∀ kvs, lookup k (inject exro props kvs) =
+      match lookup k kvs with
+      | some x => some x
+      | none => (match lookup k props with | some p => dfltFor exro p | none => none) := by
+  induction props with
+  | nil => intro kvs; unfold inject; cases lookup k kvs <;> rfl
+  | cons e r ih =>
+    obtain ⟨k0, p0⟩ := e
+    simp only [keys, List.map_cons, List.nodup_cons] at hn
+    intro kvs
+    unfold inject
+    have ihr := ih hn.2
+    have hk0 : lookup k0 r = none := lookup_none_of_not_mem_keys k0 r hn.1
+    cases hl0 : lookup k0 kvs with
+    | some x0 =>
+      simp only
+      rw [ihr kvs]
+      cases hl : lookup k kvs with
+      | some x => rfl
+      | none =>
+        simp only
+        rw [lookup_cons]
+        by_cases hk : k = k0
+        · subst hk; simp [hl0] at hl
+        · simp [hk]
+    | none =>
+      cases hd : dfltFor exro p0 with
+      | none =>
+        simp only
+        rw [ihr kvs]
+        cases hl : lookup k kvs with
+        | some x => rfl
+        | none =>
+          simp only
+          rw [lookup_cons]
+          by_cases hk : k = k0
+          · subst hk; simp [hk0, hd]
+          · simp [hk]
+      | some d =>
+        simp only
+        rw [ihr (kvs ++ [(k0, d)]), lookup_append_single]
+        cases hl : lookup k kvs with
+        | some x => rfl
+        | none =>
+          simp only
+          rw [lookup_cons]
+          by_cases hk : k = k0
+          · subst hk; simp [hd]
+          · simp [hk]
+
+theorem inject_eq_append (exro : Bool) (props : List (Str × RS)) :
+    ∀ kvs, ∃ extra, inject exro props kvs = kvs ++ extra ∧ ∀ kv ∈ extra, kv.1 ∈ keys props := by
+  induction props with
+  | nil => intro kvs; exact ⟨[], by simp [inject], by simp⟩
+  | cons e r ih =>
+    obtain ⟨k0, p0⟩ := e
+    intro kvs
+    have step : ∀ k : Str, k ∈ keys r → k ∈ keys ((k0, p0) :: r) := by
+      intro k h
+      simp only [keys, List.map_cons] at h ⊢
+      exact List.mem_cons_of_mem _ h
+    unfold inject
+    cases lookup k0 kvs with
+    | some x0 =>
+      obtain ⟨ex, h1, h2⟩ := ih kvs
+      exact ⟨ex, h1, fun kv hkv => step _ (h2 kv hkv)⟩
+    | none =>
+      cases dfltFor exro p0 with
+      | none =>
+        obtain ⟨ex, h1, h2⟩ := ih kvs
+        exact ⟨ex, h1, fun kv hkv => step _ (h2 kv hkv)⟩
+      | some d =>
+        obtain ⟨ex, h1, h2⟩ := ih (kvs ++ [(k0, d)])
+        refine ⟨(k0, d) :: ex, by simp only [h1, List.append_assoc, List.singleton_append], ?_⟩
+        intro kv hkv
+        rcases List.mem_cons.mp hkv with rfl | hkv
+        · simp [keys]
+        · exact step _ (h2 kv hkv)
+
+theorem mapOpt_isSome (f : V → Option V) (xs : List V) : (mapOpt f xs).isSome = xs.all fun x => (f x).isSome := by
+  induction xs with
+  | nil => rfl
+  | cons x r ih =>
+    unfold mapOpt
+    cases hx : f x with
+    | none => simp [hx]
+    | some y =>
+      simp only [Option.bind_some, Option.isSome_map, ih, List.all_cons, hx, Option.isSome_some, Bool.true_and]
+
+theorem visProps_isSome (ds exro : Bool) (props : List (Str × RS)) (hn : (keys props).Nodup) :
+    ∀ kvs, (visProps ds exro props kvs).isSome =
+      props.all fun kp => match lookup kp.1 kvs with | none => true | some x => (visD ds exro kp.2 x).isSome := by
+  induction props with
+  | nil => intro kvs; rfl
+  | cons e r ih =>
+    obtain ⟨k, p⟩ := e
+    simp only [keys, List.map_cons, List.nodup_cons] at hn
+    intro kvs
+    unfold visProps
+    simp only [List.all_cons]
+    cases hl : lookup k kvs with
+    | none =>
+      rw [propStep_none k _ kvs hl]
+      simp only [Option.bind_some, Bool.true_and]
+      exact ih hn.2 kvs
+    | some x =>
+      rw [propStep_some k _ kvs x hl]
+      cases hx : visD ds exro p x with
+      | none => simp [hx]
+      | some x' =>
+        simp only [Option.map_some, Option.bind_some, hx, Option.isSome_some, Bool.true_and]
+        rw [ih hn.2]
+        apply all_congr_mem
+        intro kp hkp
+        have hne : kp.1 ≠ k := by
+          intro h; apply hn.1; rw [← h]; exact mem_keys_of_mem kp.1 kp.2 r (by simpa using hkp)
+        rw [lookup_setKey_ne k kp.1 x' kvs hne]
+
+/-- `visD` of a schema without composition keywords -/
+theorem visD_compFree (ds exro : Bool) (t : Option Ty) (n r w : Bool) (ml : Nat) (mx : Option Int)
+    (props : List (Str × RS)) (req : List Str) (a : Option Bool) (items : Option RS) (dflt : Option V) (v : V) :
+    visD ds exro (RS.mk t n r w ml mx props req a items none [] [] [] dflt) v =
+      if v.isNull && n then some v
+      else if isEmptyLeaf (RS.mk t n r w ml mx props req a items none [] [] [] dflt) then
+        (if v.isNull then none else some v)
+      else ownK ds exro (RS.mk t n r w ml mx props req a items none [] [] [] dflt)
+             (visProps ds exro props) (visItems ds exro items) v := by
+  unfold visD compK
+  simp [visNot, visAll, hasComp, RS.oneOf, RS.anyOf, RS.allOf, RS.nullable]
+
+theorem compFreeP_mem (l : List (Str × RS)) (h : compFreeP l = true) : ∀ kp ∈ l, compFree kp.2 = true := by
+  induction l with
+  | nil => intro x hx; cases hx
+  | cons y r ih =>
+    obtain ⟨k, p⟩ := y
+    unfold compFreeP at h
+    simp only [Bool.and_eq_true] at h
+    intro x hx
+    rcases List.mem_cons.mp hx with rfl | hx
+    · exact h.1
+    · exact ih h.2 x hx
+
+theorem dfltsHarmlessP_mem (exro : Bool) (l : List (Str × RS)) (h : dfltsHarmlessP exro l = true) :
+    ∀ kp ∈ l, dfltsHarmless exro kp.2 = true := by
+  induction l with
+  | nil => intro x hx; cases hx
+  | cons y r ih =>
+    obtain ⟨k, p⟩ := y
+    unfold dfltsHarmlessP at h
+    simp only [Bool.and_eq_true] at h
+    intro x hx
+    rcases List.mem_cons.mp hx with rfl | hx
+    · exact h.1
+    · exact ih h.2 x hx
+
+/-- **T3.** For a composition-free schema whose injectable defaults all conform to their own schemas and belong to
+properties that are not required, `DefaultsSet` never changes the verdict (any value, any depth). -/
+theorem visD_neutral_compFree (exro : Bool) :
+    ∀ s, compFree s = true → s.wf = true → dfltsHarmless exro s = true →
+      ∀ v, (visD true exro s v).isSome = (visD false exro s v).isSome := by
+  apply rs_induct_full
+  intro t n r w ml mx props req a items nt oneOf anyOf allOf dflt hp hi _ _ _ _ hcf hwf hh v
+  unfold compFree at hcf
+  simp only [Bool.and_eq_true, Option.isNone_iff_eq_none, List.isEmpty_iff] at hcf
+  obtain ⟨⟨⟨⟨⟨e1, e2⟩, e3⟩, e4⟩, cfp⟩, cfi⟩ := hcf
+  subst e1 e2 e3 e4
+  obtain ⟨hnd, wp, wi, _⟩ := wf_parts _ _ _ _ _ _ _ _ _ _ _ _ _ _ _ hwf
+  unfold dfltsHarmless at hh
+  simp only [Bool.and_eq_true] at hh
+  obtain ⟨⟨hhere, hhp⟩, hhi⟩ := hh
+  rw [visD_compFree, visD_compFree]
+  by_cases h1 : (v.isNull && n) = true
+  · simp only [h1, ↓reduceIte]
+  by_cases h2 : isEmptyLeaf (RS.mk t n r w ml mx props req a items none [] [] [] dflt) = true
+  · simp only [h1, h2, ↓reduceIte]
+  simp only [h1, h2, Bool.false_eq_true, ↓reduceIte]
+  cases v with
+  | null => rfl
+  | bool b => rfl
+  | int k => rfl
+  | half k => rfl
+  | str s => rfl
+  | arr xs =>
+    have e : ∀ ds, ownK ds exro (RS.mk t n r w ml mx props req a items none [] [] [] dflt)
+        (visProps ds exro props) (visItems ds exro items) (.arr xs) =
+        if permits t .array then (visItems ds exro items xs).map .arr else none := fun _ => rfl
+    rw [e, e]
+    cases permits t .array with
+    | false => rfl
+    | true =>
+      simp only [if_true, Option.isSome_map]
+      cases items with
+      | none => rfl
+      | some it =>
+        unfold visItems
+        rw [mapOpt_isSome, mapOpt_isSome]
+        apply all_congr_mem
+        intro x _
+        exact hi it rfl (by simpa [compFreeO] using cfi) (by simpa [wfOpt] using wi)
+          (by simpa [dfltsHarmlessO] using hhi) x
+  | obj kvs =>
+    have e : ∀ ds, ownK ds exro (RS.mk t n r w ml mx props req a items none [] [] [] dflt)
+        (visProps ds exro props) (visItems ds exro items) (.obj kvs) =
+        if permits t .object && roLoopOK exro props (keys (injD ds exro props kvs)) &&
+           addlOKD (RS.mk t n r w ml mx props req a items none [] [] [] dflt) (injD ds exro props kvs) &&
+           requiredOK (RS.mk t n r w ml mx props req a items none [] [] [] dflt) (keys (injD ds exro props kvs))
+        then (visProps ds exro props (injD ds exro props kvs)).map .obj else none := fun _ => rfl
+    rw [e, e]
+    simp only [injD, if_true, Bool.false_eq_true, if_false]
+    have L := lookup_inject exro props hnd
+    -- what `dfltsHarmlessHere` says of one property
+    have hereP : ∀ k p d, (k, p) ∈ props → dfltFor exro p = some d →
+        (visD true exro p d).isSome = true ∧ req.contains k = false := by
+      intro k p d hm hd
+      unfold dfltsHarmlessHere at hhere
+      have := List.all_eq_true.mp hhere (k, p) hm
+      simp only [hd, Bool.and_eq_true, Bool.not_eq_true'] at this
+      exact this
+    have R : roLoopOK exro props (keys (inject exro props kvs)) = roLoopOK exro props (keys kvs) := by
+      unfold roLoopOK
+      apply all_congr_mem
+      intro k hk
+      obtain ⟨p, hlp⟩ := lookup_isSome_of_mem_keys k props hk
+      rw [contains_keys, contains_keys, L k kvs, hlp]
+      cases hl : lookup k kvs with
+      | some x => rfl
+      | none =>
+        simp only
+        cases hd : dfltFor exro p with
+        | none => rfl
+        | some d =>
+          have : (p.ro && !exro) = false := by
+            unfold dfltFor reqRO at hd
+            cases hro : (p.ro && !exro) with
+            | false => rfl
+            | true => simp [hro] at hd
+          simp [isRO, this]
+    have A : addlOKD (RS.mk t n r w ml mx props req a items none [] [] [] dflt) (inject exro props kvs) =
+        addlOKD (RS.mk t n r w ml mx props req a items none [] [] [] dflt) kvs := by
+      obtain ⟨ex, h1, h2⟩ := inject_eq_append exro props kvs
+      rw [h1]
+      unfold addlOKD
+      simp only [List.all_append, RS.props]
+      have : (ex.all fun kv => (lookup kv.1 props).isSome || (RS.mk t n r w ml mx props req a items none [] [] [] dflt).addl != some false) = true := by
+        apply List.all_eq_true.mpr
+        intro kv hkv
+        obtain ⟨p, hp⟩ := lookup_isSome_of_mem_keys kv.1 props (h2 kv hkv)
+        simp [hp]
+      rw [this, Bool.and_true]
+    have Q : requiredOK (RS.mk t n r w ml mx props req a items none [] [] [] dflt) (keys (inject exro props kvs)) =
+        requiredOK (RS.mk t n r w ml mx props req a items none [] [] [] dflt) (keys kvs) := by
+      unfold requiredOK
+      simp only [RS.required, RS.props]
+      apply all_congr_mem
+      intro k hk
+      rw [contains_keys, contains_keys, L k kvs]
+      cases hl : lookup k kvs with
+      | some x => rfl
+      | none =>
+        simp only
+        cases hlp : lookup k props with
+        | none => rfl
+        | some p =>
+          simp only
+          cases hd : dfltFor exro p with
+          | none => rfl
+          | some d =>
+            have := (hereP k p d (lookup_some_mem k props p hlp) hd).2
+            have hc : req.contains k = true := by simpa using hk
+            rw [hc] at this; cases this
+    have P : (visProps true exro props (inject exro props kvs)).isSome = (visProps false exro props kvs).isSome := by
+      rw [visProps_isSome true exro props hnd, visProps_isSome false exro props hnd]
+      apply all_congr_mem
+      intro kp hkp
+      have hlp : lookup kp.1 props = some kp.2 := lookup_of_mem_nodup kp.1 kp.2 props hnd (by simpa using hkp)
+      have ihp := hp kp hkp (compFreeP_mem props cfp kp hkp) (wfProps_mem props wp kp hkp)
+        (dfltsHarmlessP_mem exro props hhp kp hkp)
+      rw [L kp.1 kvs, hlp]
+      cases hl : lookup kp.1 kvs with
+      | some x => simp only; exact ihp x
+      | none =>
+        simp only
+        cases hd : dfltFor exro kp.2 with
+        | none => rfl
+        | some d => simp only; exact (hereP kp.1 kp.2 d (by simpa using hkp) hd).1
+    rw [R, A, Q]
+    cases (permits t .object && roLoopOK exro props (keys kvs) &&
+        addlOKD (RS.mk t n r w ml mx props req a items none [] [] [] dflt) kvs &&
+        requiredOK (RS.mk t n r w ml mx props req a items none [] [] [] dflt) (keys kvs)) with
+    | false => rfl
+    | true => simp only [if_true, Option.isSome_map]; exact P
+
 end KinModel.Body
